@@ -102,16 +102,19 @@ type T struct {
 	Shard    string
 	Seed     int64
 
-	sum       Summary
-	seen      map[uint64]struct{}
-	idx       int64
-	from      int64  // skip cases with index < from
-	only      string // replay: only the case with this key
-	careful   *bufio.Writer
-	verbose   bool
-	budget    int64
-	maxViol   int
-	replayHit bool
+	sum        Summary
+	seen       map[uint64]struct{}
+	idx        int64
+	from       int64  // skip cases with index < from
+	only       string // replay: only the case with this key
+	careful    *bufio.Writer
+	verbose    bool
+	budget     int64
+	maxViol    int
+	patCount   map[string]int
+	plainCount int
+	plainTotal int64
+	replayHit  bool
 	// Pattern, when set by the property before calling Case, is attached to a
 	// failure of that case (known-finding pattern id); it is reset by Case.
 	Pattern string
@@ -158,7 +161,7 @@ func (t *T) Case(desc string, nontrivial bool, run func() (string, *Fail)) {
 	if i < t.from {
 		return
 	}
-	if t.sum.NViolations >= 400 && t.only == "" && pattern == "" {
+	if t.plainTotal >= 400 && t.only == "" && pattern == "" {
 		// this shard has failed beyond doubt: stop spending time on it (reported as not exhaustive)
 		t.sum.Incomplete = true
 		return
@@ -203,7 +206,25 @@ func (t *T) Case(desc string, nontrivial bool, run func() (string, *Fail)) {
 		t.sum.Classes["VIOLATION:"+f.Kind]++
 		t.sum.NViolations++
 		v := Violation{Property: t.Prop.ID, Tier: tierName(t.Thorough), Shard: t.Shard, Index: i, Key: k, Desc: desc, Fail: *f}
-		if len(t.sum.Violations) < t.maxViol {
+		// cases tagged with a finding pattern have a cap of their own, so that a listed finding
+		// can never use up the room of violations that are not listed
+		record := false
+		if f.Pattern == "" {
+			t.plainTotal++
+		}
+		if f.Pattern != "" {
+			if t.patCount == nil {
+				t.patCount = map[string]int{}
+			}
+			if t.patCount[f.Pattern] < 10 {
+				t.patCount[f.Pattern]++
+				record = true
+			}
+		} else if t.plainCount < t.maxViol {
+			t.plainCount++
+			record = true
+		}
+		if record {
 			for r := 0; r < 5; r++ {
 				_, f2 := t.guard(run)
 				vtick.Reset(vtick.Off)
